@@ -41,8 +41,9 @@ claim("C06", "DESIGN.md 5 C06",
 
 claim("C12", "DESIGN.md 5 C12",
       "No-panic sweep (index, slice bounds, nil dereference, division, type assertion, makeslice) proved for all inputs over: codecs.RewritePacket, PacketFlags, Keyframe (AV1 and H.264 parsers with loop invariants), KeyframeDimensions; "
-      "all of packetmap and packetcache under their representation invariants; rtpconn Write/write, layer functions, adjustLayer, updateRate, bitrate, sadd. RewritePacket cannot change the packet length (it receives the slice by value and writes only data[*]).",
-      "Assumed: pion Unmarshal contracts (write only their receiver; VP9 success implies non-empty input). Not decided / not yet under contract: the websocket message handlers, HTTP handlers, sdpfrag; panics inside dependencies; resource exhaustion.")
+      "all of packetmap and packetcache under their representation invariants; rtpconn Write/write, gotNACK, layer functions, adjustLayer, updateRate, bitrate, sadd; webClient accessors, write, error, errorMessage; group chat-history functions and simple accessors. "
+      "RewritePacket cannot change the packet length (it receives the slice by value and writes only data[*]). handleClientMessage: every call of a *Group method is proved to have a non-nil receiver (nil-group dereferences after a refused or redirected join: repaired).",
+      "Assumed: pion Unmarshal contracts (write only their receiver; VP9 success implies non-empty input). Not decided / not yet under contract: the full no-panic sweep of handleClientMessage/handleAction (type assertions and slices inside the handler are not swept), HTTP handlers, sdpfrag; panics inside dependencies; resource exhaustion.")
 
 claim("C03", "DESIGN.md 5 C03",
       "packetmap.Reverse is proved to invert the table: a hit names a source packet that some interval maps to exactly the requested number with that interval's picture-id shift; numbers outside every interval's image get nothing. "
@@ -51,6 +52,39 @@ claim("C03", "DESIGN.md 5 C03",
       "Assumed: conn.UpTrack.GetPacket returns a cached packet whose header seqno is the requested one (justified by C05 Get and readLoop's Store call; not yet under contract), rtcp.NackPair.Range only calls the closure. "
       "Not decided: older intervals of the ring (first-hit consistency between Reverse and direct is the ring-order invariant, see C01); equality of the marker bit when the selected layer changed since the original transmission (recomputed from the current layer).")
 
+claim("C10", "DESIGN.md 5 C10",
+      "group.AddClient is verified against the admission rules as postconditions of the one critical section in which it runs (g.mu is proved held from the first guarded read to the insertion): "
+      "on success of a non-system non-operator the group was not locked, not full (len(clients) <= MaxClients afterwards), inside its not-before/expires window, and with autokick an operator was found; "
+      "on success the client is registered under its non-empty id, an existing registration under that id refuses the join; on every refusal the client object is left exactly as it was (Init not called: ghost count). "
+      "autoLockKick never lifts or replaces an existing lock and locks only autolock groups; it is proved to be called with g.mu held at every call site (DelClient's call was outside the critical section: repaired). "
+      "AddClient/DelClient/Add frames are explicit (what they may modify) and checked write by write.",
+      "Assumed: group.Add (trusted contract, not yet verified), Description.GetPermission (effect-free; verified under C08 when claimed), group.Client callbacks do not touch the group's guarded state, time.Time comparisons are pure. "
+      "Not decided: that a kicked client eventually leaves (liveness); description reload races with file edits; 'announced to no one' on refusal is read from the code structure (all notifications follow the insertion), not a separate obligation.")
+
+claim("C11", "DESIGN.md 5 C11",
+      "rtpconn.handleClientMessage (600 lines, every path) is verified against call-site obligations: each privileged effect is reached only with c.group != nil and the permission it needs "
+      "(gotOffer: present; chat/usermessage forwarding and history: message or caption; clearchat, lock, subgroups, setdata, op/unop/present/..., identify, kick: op; record/unrecord: record; "
+      "maketoken: token, own group, no subgroups, an expiry, and every delegated permission held - loop invariant; edittoken/listtokens: op and token, own group only; setdata on oneself only), "
+      "and against the invariant 'a client that is not a member holds no permission', which is a pre- and postcondition of the handler on every return (it fails at the old redirect return and after the old AddClient: both repaired).",
+      "Assumed: frames of the handler's callees marked trusted (they leave c.group, c.permissions, c.id, c.username alone: gotOffer, negotiate, delUpConn, ... listed in the evidence), leaveGroup's postcondition, token and diskwriter externs. "
+      "Not decided: handleAction (revocation: changePermissionsAction / permissionsChangedAction) and the WHIP handlers are not yet under contract; 'from the moment the client has been notified' under concurrent delivery.")
+
+claim("C13", "DESIGN.md 5 C13",
+      "Lock-ghost verification of the group layer: for Group.{description, locked, clients, history, timestamp, data}, the table groups.groups and Channel.queue every load and store in a function under contract carries the obligation 'mutex held' "
+      "(functions documented 'called locked' require it; public ones are proved to take and release the lock; double Lock and Unlock of an unheld mutex are obligations too). "
+      "unbounded.Channel Put/Get: Put appends exactly v at the end and changes nothing else, Get returns the whole queue and leaves it empty (exactly once, in order, linearised).",
+      "PARTIAL. Under contract: Name, Locked, SetLocked, Data, UpdateData, Description, ClientCount, mayExpire, Get, Delete, deleteUnlocked, Range (both), AddClient, DelClient, autoLockKick, GetClients, getClientsUnlocked, GetClient, getClientUnlocked, UserExists, chat history functions, Channel.Put/Get. "
+      "Not yet under contract (accessors of guarded state outside the claim): add, Shutdown, WallOps, Status, GetPublic, Update, WhipClient, diskwriter.Client, stats. "
+      "Not decided: lock-ORDER deadlock freedom (level ghosts not built: WhipClient.Close vs AddClient and kickall re-entering the group are NOT checked), lost wakeups, starvation, leaks. Callbacks passed to Range are assumed not to touch the lock.")
+
+claim("C15", "DESIGN.md 5 C15",
+      "handleClientMessage: at the forwarding call sites (broadcast and direct write) the message passed on has Source/Username/Dest/Type/Kind/Value copied from the incoming one, the incoming Source is empty or the sender's id and the Username nil or the sender's name "
+      "(the prologue returns a ProtocolError otherwise), Privileged == ('op' in the sender's permissions); only broadcast chat is recorded. "
+      "group history: AddToChatHistory keeps len <= 50, appends exactly the entry given, preserves order and drops exactly the oldest entry when full (overlapping copy modelled as memmove); "
+      "discardObsoleteHistory/GetChatHistory return a suffix in order as a private copy; ClearChatHistory('', '') empties.",
+      "Assumed: broadcast delivers to exactly the *webClient members of the slice it is given (trusted contract, body not yet verified), slices.DeleteFunc's documented behaviour, time.Since. "
+      "Not decided: that GetClients(except) is all members minus the sender (getClientsUnlocked ranges over a map: only 'a subset of the members' is modelled); the replay loop on join (handleAction); wall-clock meaning of the age limit.")
+
 PENDING = "not yet carried by the engine in this build (work in progress; see DESIGN.md section 9 for the order of work)"
-for pid in ["C07", "C08", "C09", "C10", "C11", "C13", "C14", "C15", "C16", "C17", "C18", "C19", "C20"]:
+for pid in ["C07", "C08", "C09", "C14", "C16", "C17", "C18", "C19", "C20"]:
     na(pid, PENDING)
